@@ -9,6 +9,221 @@ verus! {
 //@include prelude/std_assumed.rs
 //@include units/inc/csc_scalings.rs
 
+
+// ------------------------------------------------------------------ sparse matrix-vector products (matrix_math.rs), F-real
+// dense meaning of  A*x  read off the CSC arrays:  (A x)_r = sum over stored entries (r, j) of A_rj * x_j
+// contribution to row r of the stored entries  colptr[j] .. hi  of column j
+pub open spec fn colsum_n(A: CscMatrix<F>, x: Seq<F>, r: int, j: int, hi: int) -> real
+    decreases hi - A.colptr@[j],
+{
+    if hi <= A.colptr@[j] { 0real } else {
+        colsum_n(A, x, r, j, hi - 1) + (if A.rowval@[hi - 1] == r { A.nzval@[hi - 1].v() * x[j].v() } else { 0real })
+    }
+}
+// contribution to row r of the columns 0 .. j
+pub open spec fn total_n(A: CscMatrix<F>, x: Seq<F>, r: int, j: int) -> real
+    decreases j,
+{
+    if j <= 0 { 0real } else { total_n(A, x, r, j - 1) + colsum_n(A, x, r, j - 1, A.colptr@[j] as int) }
+}
+// the values produced by the range lo..hi
+pub open spec fn range_from(sq: Seq<usize>, lo: int) -> bool { forall|k: int| 0 <= k < sq.len() ==> #[trigger] sq[k] == lo + k }
+pub proof fn lemma_axpy_step(aa: real, s: real, nz: real, xv: real)
+    ensures aa * (s + nz * xv) == aa * s + (aa * nz) * xv,
+{
+    assert(aa * (s + nz * xv) == aa * s + (aa * nz) * xv) by(nonlinear_arith);
+}
+
+//@fn file=src/algebra/csc/matrix_math.rs name=_csc_axpby_N rules=R1,R2,R3,R6,zipidx:1=i;3=i;5=i
+//@contract
+    requires
+        A.colptr_ok(), x@.len() == A.n, rows_below(*A, old(y)@.len() as int),
+    ensures
+        final(y)@.len() == old(y)@.len(),
+        // C16: y <- a*A*x + b*y, row by row (real arithmetic; the dense meaning of the CSC arrays)
+        forall|r: int| 0 <= r < old(y)@.len() ==> (#[trigger] final(y)@[r]).v() == b.v() * old(y)@[r].v() + a.v() * total_n(*A, x@, r, A.n as int),
+//@pre
+    broadcast use real_arith;
+    let ghost y0 = y@;
+//@before "if a == F::zero()"
+    let ghost yb = y@;
+    proof {
+        assert(yb.len() == y0.len());
+        assert forall|r: int| 0 <= r < y0.len() implies (#[trigger] yb[r]).v() == b.v() * y0[r].v() by {
+            if b.v() != 0real && b.v() != 1real && b.v() != -1real { }
+        }
+        // a == 0: nothing is added
+        assert forall|r: int| 0 <= r < y0.len() implies 0real * total_n(*A, x@, r, A.n as int) == 0real by {
+            assert(0real * total_n(*A, x@, r, A.n as int) == 0real) by(nonlinear_arith);
+        }
+    }
+//@loop 1
+            invariant
+                j_ctr == r14_i1, r14_n1 == A.n, A.colptr_ok(), x@.len() == A.n, rows_below(*A, y@.len() as int), y@.len() == y0.len(), a.v() == 1real,
+                forall|r: int| 0 <= r < y0.len() ==> (#[trigger] y@[r]).v() == yb[r].v() + total_n(*A, x@, r, j_ctr as int),
+//@iter 2
+it_a
+//@loop 2
+                invariant
+                    j < A.n, *xj == x@[j as int], A.colptr_ok(), x@.len() == A.n, rows_below(*A, y@.len() as int), y@.len() == y0.len(), a.v() == 1real,
+                    it_a.seq().len() == A.colptr@[j + 1] - A.colptr@[j as int], range_from(it_a.seq(), A.colptr@[j as int] as int),
+                    forall|r: int| 0 <= r < y0.len() ==> (#[trigger] y@[r]).v() == yb[r].v() + (total_n(*A, x@, r, j as int) + colsum_n(*A, x@, r, j as int, A.colptr@[j as int] + it_a.index@)),
+//@body_start 2
+                broadcast use real_arith;
+//@body_end 2
+                proof {
+                    assert(forall|r: int| 0 <= r < y0.len() ==> colsum_n(*A, x@, r, j as int, i as int + 1) == colsum_n(*A, x@, r, j as int, i as int) + (if A.rowval@[i as int] == r { A.nzval@[i as int].v() * x@[j as int].v() } else { 0real }));
+                }
+//@loop 3
+            invariant
+                j_ctr == r14_i2, r14_n2 == A.n, A.colptr_ok(), x@.len() == A.n, rows_below(*A, y@.len() as int), y@.len() == y0.len(), a.v() == -1real,
+                forall|r: int| 0 <= r < y0.len() ==> (#[trigger] y@[r]).v() == yb[r].v() - total_n(*A, x@, r, j_ctr as int),
+//@iter 4
+it_b
+//@loop 4
+                invariant
+                    j < A.n, *xj == x@[j as int], A.colptr_ok(), x@.len() == A.n, rows_below(*A, y@.len() as int), y@.len() == y0.len(), a.v() == -1real,
+                    it_b.seq().len() == A.colptr@[j + 1] - A.colptr@[j as int], range_from(it_b.seq(), A.colptr@[j as int] as int),
+                    forall|r: int| 0 <= r < y0.len() ==> (#[trigger] y@[r]).v() == yb[r].v() - (total_n(*A, x@, r, j as int) + colsum_n(*A, x@, r, j as int, A.colptr@[j as int] + it_b.index@)),
+//@body_start 4
+                broadcast use real_arith;
+//@body_end 4
+                proof {
+                    assert(forall|r: int| 0 <= r < y0.len() ==> colsum_n(*A, x@, r, j as int, i as int + 1) == colsum_n(*A, x@, r, j as int, i as int) + (if A.rowval@[i as int] == r { A.nzval@[i as int].v() * x@[j as int].v() } else { 0real }));
+                }
+//@loop 5
+            invariant
+                j_ctr == r14_i3, r14_n3 == A.n, A.colptr_ok(), x@.len() == A.n, rows_below(*A, y@.len() as int), y@.len() == y0.len(),
+                forall|r: int| 0 <= r < y0.len() ==> (#[trigger] y@[r]).v() == yb[r].v() + a.v() * total_n(*A, x@, r, j_ctr as int),
+//@iter 6
+it_c
+//@loop 6
+                invariant
+                    j < A.n, *xj == x@[j as int], A.colptr_ok(), x@.len() == A.n, rows_below(*A, y@.len() as int), y@.len() == y0.len(), 
+                    it_c.seq().len() == A.colptr@[j + 1] - A.colptr@[j as int], range_from(it_c.seq(), A.colptr@[j as int] as int),
+                    forall|r: int| 0 <= r < y0.len() ==> (#[trigger] y@[r]).v() == yb[r].v() + a.v() * (total_n(*A, x@, r, j as int) + colsum_n(*A, x@, r, j as int, A.colptr@[j as int] + it_c.index@)),
+//@body_start 6
+                broadcast use real_arith;
+//@body_end 6
+                proof {
+                    assert(forall|r: int| 0 <= r < y0.len() ==> colsum_n(*A, x@, r, j as int, i as int + 1) == colsum_n(*A, x@, r, j as int, i as int) + (if A.rowval@[i as int] == r { A.nzval@[i as int].v() * x@[j as int].v() } else { 0real }));
+                    let rr = A.rowval@[i as int] as int;
+                    lemma_axpy_step(a.v(), total_n(*A, x@, rr, j as int) + colsum_n(*A, x@, rr, j as int, i as int), A.nzval@[i as int].v(), x@[j as int].v());
+                }
+//@body_start 1
+            broadcast use real_arith;
+//@body_end 1
+            proof {
+                assert(forall|r: int| 0 <= r < y0.len() ==> total_n(*A, x@, r, j as int + 1) == total_n(*A, x@, r, j as int) + colsum_n(*A, x@, r, j as int, A.colptr@[j as int + 1] as int));
+            }
+//@body_start 3
+            broadcast use real_arith;
+//@body_end 3
+            proof {
+                assert(forall|r: int| 0 <= r < y0.len() ==> total_n(*A, x@, r, j as int + 1) == total_n(*A, x@, r, j as int) + colsum_n(*A, x@, r, j as int, A.colptr@[j as int + 1] as int));
+            }
+//@body_start 5
+            broadcast use real_arith;
+//@body_end 5
+            proof {
+                assert(forall|r: int| 0 <= r < y0.len() ==> total_n(*A, x@, r, j as int + 1) == total_n(*A, x@, r, j as int) + colsum_n(*A, x@, r, j as int, A.colptr@[j as int + 1] as int));
+            }
+//@end
+
+// (A' x)_j = sum over the stored entries (r, j) of column j of A_rj * x_r
+pub open spec fn colsum_t(A: CscMatrix<F>, x: Seq<F>, j: int, hi: int) -> real
+    decreases hi - A.colptr@[j],
+{
+    if hi <= A.colptr@[j] { 0real } else { colsum_t(A, x, j, hi - 1) + A.nzval@[hi - 1].v() * x[A.rowval@[hi - 1] as int].v() }
+}
+pub open spec fn col_t(A: CscMatrix<F>, x: Seq<F>, c: int) -> real { colsum_t(A, x, c, A.colptr@[c + 1] as int) }
+//@fn file=src/algebra/csc/matrix_math.rs name=_csc_axpby_T rules=R1,R2,R3,R6,zipidx:1=m;3=m;5=m
+//@contract
+    requires
+        A.colptr_ok(), x@.len() == A.m, rows_below(*A, x@.len() as int), old(y)@.len() >= A.n,
+    ensures
+        final(y)@.len() == old(y)@.len(),
+        // C16: y <- a*A'*x + b*y (entries of y beyond A.n only get the b*y part: zip/take semantics)
+        forall|c: int| 0 <= c < A.n ==> (#[trigger] final(y)@[c]).v() == b.v() * old(y)@[c].v() + a.v() * col_t(*A, x@, c),
+        forall|c: int| A.n <= c < old(y)@.len() ==> (#[trigger] final(y)@[c]).v() == b.v() * old(y)@[c].v(),
+//@pre
+    broadcast use real_arith;
+    let ghost y0 = y@;
+//@before "if a == F::zero()"
+    let ghost yb = y@;
+    proof {
+        assert(yb.len() == y0.len());
+        assert forall|r: int| 0 <= r < y0.len() implies (#[trigger] yb[r]).v() == b.v() * y0[r].v() by { }
+        assert forall|c: int| 0 <= c < A.n implies 0real * #[trigger] col_t(*A, x@, c) == 0real by {
+            assert(0real * col_t(*A, x@, c) == 0real) by(nonlinear_arith);
+        }
+    }
+//@loop 1
+            invariant
+                j_ctr == r14_i1, r14_n1 == A.n, A.colptr_ok(), x@.len() == A.m, rows_below(*A, x@.len() as int), y@.len() == y0.len(), y0.len() >= A.n, a.v() == 1real,
+                forall|c: int| 0 <= c < j_ctr ==> (#[trigger] y@[c]).v() == yb[c].v() + col_t(*A, x@, c),
+                forall|c: int| j_ctr <= c < y0.len() ==> #[trigger] y@[c] == yb[c],
+//@body_start 1
+            broadcast use real_arith;
+            let ghost ybj = yb[j_ctr as int].v();
+//@iter 2
+it_a
+//@loop 2
+                invariant
+                    j < A.n, A.colptr_ok(), x@.len() == A.m, rows_below(*A, x@.len() as int), a.v() == 1real,
+                    it_a.seq().len() == A.colptr@[j + 1] - A.colptr@[j as int], range_from(it_a.seq(), A.colptr@[j as int] as int),
+                    (*yj).v() == ybj + colsum_t(*A, x@, j as int, A.colptr@[j as int] + it_a.index@),
+//@body_start 2
+                broadcast use real_arith;
+//@body_end 2
+                proof {
+                    assert(colsum_t(*A, x@, j as int, k as int + 1) == colsum_t(*A, x@, j as int, k as int) + A.nzval@[k as int].v() * x@[A.rowval@[k as int] as int].v());
+                }
+//@loop 3
+            invariant
+                j_ctr == r14_i2, r14_n2 == A.n, A.colptr_ok(), x@.len() == A.m, rows_below(*A, x@.len() as int), y@.len() == y0.len(), y0.len() >= A.n, a.v() == -1real,
+                forall|c: int| 0 <= c < j_ctr ==> (#[trigger] y@[c]).v() == yb[c].v() - col_t(*A, x@, c),
+                forall|c: int| j_ctr <= c < y0.len() ==> #[trigger] y@[c] == yb[c],
+//@body_start 3
+            broadcast use real_arith;
+            let ghost ybj = yb[j_ctr as int].v();
+//@iter 4
+it_b
+//@loop 4
+                invariant
+                    j < A.n, A.colptr_ok(), x@.len() == A.m, rows_below(*A, x@.len() as int), a.v() == -1real,
+                    it_b.seq().len() == A.colptr@[j + 1] - A.colptr@[j as int], range_from(it_b.seq(), A.colptr@[j as int] as int),
+                    (*yj).v() == ybj - colsum_t(*A, x@, j as int, A.colptr@[j as int] + it_b.index@),
+//@body_start 4
+                broadcast use real_arith;
+//@body_end 4
+                proof {
+                    assert(colsum_t(*A, x@, j as int, k as int + 1) == colsum_t(*A, x@, j as int, k as int) + A.nzval@[k as int].v() * x@[A.rowval@[k as int] as int].v());
+                }
+//@loop 5
+            invariant
+                j_ctr == r14_i3, r14_n3 == A.n, A.colptr_ok(), x@.len() == A.m, rows_below(*A, x@.len() as int), y@.len() == y0.len(), y0.len() >= A.n, 
+                forall|c: int| 0 <= c < j_ctr ==> (#[trigger] y@[c]).v() == yb[c].v() + a.v() * col_t(*A, x@, c),
+                forall|c: int| j_ctr <= c < y0.len() ==> #[trigger] y@[c] == yb[c],
+//@body_start 5
+            broadcast use real_arith;
+            let ghost ybj = yb[j_ctr as int].v();
+//@iter 6
+it_c
+//@loop 6
+                invariant
+                    j < A.n, A.colptr_ok(), x@.len() == A.m, rows_below(*A, x@.len() as int), 
+                    it_c.seq().len() == A.colptr@[j + 1] - A.colptr@[j as int], range_from(it_c.seq(), A.colptr@[j as int] as int),
+                    (*yj).v() == ybj + a.v() * colsum_t(*A, x@, j as int, A.colptr@[j as int] + it_c.index@),
+//@body_start 6
+                broadcast use real_arith;
+//@body_end 6
+                proof {
+                    assert(colsum_t(*A, x@, j as int, k as int + 1) == colsum_t(*A, x@, j as int, k as int) + A.nzval@[k as int].v() * x@[A.rowval@[k as int] as int].v());
+                    lemma_axpy_step(a.v(), colsum_t(*A, x@, j as int, k as int), A.nzval@[k as int].v(), x@[A.rowval@[k as int] as int].v());
+                }
+//@end
+
 // ------------------------------------------------------------------ scalar clip (scalarmath.rs)
 pub trait ScalarMath { fn clip(&self, min_thresh: Self, max_thresh: Self) -> Self where Self: Sized; }
 impl ScalarMath for F {
